@@ -177,3 +177,78 @@ def rest_mint(f: int, e: str, ri: int, has_name: bool) -> bool:
     split = ex.rpartition(":")
     a = arnmod.parse_arn(split[0]); a["resource_type"] = "stateMachine"
     return arnmod.create_arn(a) == sm and (not has_name or split[2] == e)
+
+
+import vh_c15 as c15
+
+
+@condition(timeout={"quick": 400, "thorough": 900}, bounds={"quick": {"N": 1}, "thorough": {"N": 2}},
+           functions=["TaskDispatcher.execute_task > asl_service_states_startExecution (child execution ARN minted from the child state machine's ARN, not from the Task Resource ARN)"],
+           outside=["accounts other than the pool"])
+def child_mint(form: int, rr: int, cr: int, m: str, named: bool, ca: int) -> bool:
+    """
+    requires: 0 <= form < 5 and 0 <= rr < 3 and 0 <= cr < 2 and 0 <= ca < 2 and 1 <= len(m) <= @N@ and all(c in ALPHA for c in m)
+    ensures: _
+    """
+    # The Task's Resource ARN may carry no region (the AWS form arn:aws:states:::states:startExecution.sync), the
+    # launching engine's own region, or another one; the child machine lives in region cr / account ca.
+    m = norm(m)
+    if not ra.valid_name(m):
+        return True
+    log = []; results = []
+    d = c15._dispatcher(log)
+    store = d.state_engine.asl_store
+    parent = dict(store[c15.SM]); parent["type"] = "STANDARD"
+    store[c15.SM] = parent
+    region = pick(["local", "eu-west-1"], cr)
+    account = pick(["0123456789", "999"], ca)
+    carn = "arn:aws:states:%s:%s:stateMachine:%s" % (region, account, m)
+    c = dict(parent); c["stateMachineArn"] = carn; c["name"] = m; c["type"] = "EXPRESS" if form == 4 else "STANDARD"
+    store[carn] = c
+    f = pick(c15.FORMS, form)
+    rregion = pick(["", "local", "us-east-1"], rr)
+    res = ("arn:aws:states:%s::aws-sdk:" if form == 4 else "arn:aws:states:%s::states:") % rregion + f
+    params = {"Input": {"i": 1}, "StateMachineArn": carn}
+    if named:
+        params["Name"] = "given"
+    ctx = {"StateMachine": {"Id": c15.SM}, "Execution": {"Id": stubs.EX_ARN}, "State": {"Name": "T"}, "Tracer": {}}
+    import asl_workflow_engine.event_dispatcher as edm
+    from vf import sim
+    edm.Message = sim.Message
+    d.execute_task(res, params, results.append, 5000, True, ctx, "ev1", False)
+    pubs = [l for l in log if l[0] == "publish"]
+    if len(pubs) != 1:
+        return False
+    ev = pubs[0][1]
+    ex = ev["context"]["Execution"]["Id"]
+    if ev["context"]["StateMachine"]["Id"] != carn:
+        return False
+    # every derivation site splits the execution ARN like this and must arrive at the machine that runs it
+    split = ex.rpartition(":")
+    a = arnmod.parse_arn(split[0]); a["resource_type"] = "stateMachine"
+    if arnmod.create_arn(a) != carn:
+        return False
+    if form == 0 and not (len(results) == 1 and results[0].get("executionArn") == ex):
+        return False
+    return True
+
+
+# names that contain the words an ARN is made of: a derivation that edits the ARN text (replace / find / split on a
+# word) instead of its parsed parts goes wrong exactly on these
+WORDY = ["execution", "nightly-execution-report", "stateMachine", "my_stateMachine.v2", "states", "aws", "local", "arn", "0123456789", "execution.execution"]
+
+
+@condition(timeout={"quick": 240, "thorough": 600}, functions=["StateEngine.start_execution", "end_execution (EXPRESS: re-derivation from the execution ARN)", "broadcast_notification",
+                                                                "update_execution_history (recovery branch)", "check_for_expired_branch_results"])
+def mint_and_rederive_wordy(mi: int, ei: int, express: bool, ri: int, site: int) -> bool:
+    """
+    requires: 0 <= mi < len(WORDY) and 0 <= ei < len(WORDY) and 0 <= ri < 2 and 0 <= site < 3
+    ensures: _
+    """
+    m = pick(WORDY, mi); e = pick(WORDY, ei)
+    site = stubs.cint(site, 0, 2)
+    if site == 0:
+        return mint_and_rederive(m, e, express, ri)
+    if express:
+        return True
+    return recovery_and_backstop(m, e, site - 1)
